@@ -146,6 +146,12 @@ func decodeStruct(p Paragraph, into reflect.Value) error {
 		field := into.Field(i)
 		fieldType := into.Type().Field(i)
 
+		if fieldType.Tag.Get("control") == "-" {
+			/* If the key is "-", lets go ahead and skip it, whatever
+			 * its type */
+			continue
+		}
+
 		if field.Type().Kind() == reflect.Struct {
 			/* Walk into plain nested structs only. The Paragraph member
 			 * is filled in below, and a type that unmarshals itself owns
